@@ -20,7 +20,7 @@ def meta_own_missed(sid):
 
 def seeds():
     out = []
-    for inc, tag in (("_incoming", "mut"), ("_incoming2", "r2"), ("_incoming3", "r3"), ("_incoming4", "r4")):
+    for inc, tag in (("_incoming", "mut"), ("_incoming2", "r2"), ("_incoming3", "r3"), ("_incoming4", "r4"), ("_incoming5", "r5")):
         for d in sorted(glob.glob("%s/seeded/%s/C??.mut?.diff" % (V, inc))):
             base = os.path.basename(d)
             prop, m = base[:3], base[7]
